@@ -39,7 +39,22 @@ def vc_filter(vc):
 
 
 def items(pr):
-    return [fn("rp2.in_transaction.InTransaction.__init__"), fn("rp2.out_transaction.OutTransaction.__init__"), fn("rp2.intra_transaction.IntraTransaction.__init__"), custom("rows", rows), custom("columns", columns), custom("numbers", numbers), custom("fee_split", fee_split), lemma("C11.rounding"), lemma("C11.fee_model")]
+    return [fn("rp2.in_transaction.InTransaction.__init__"), fn("rp2.out_transaction.OutTransaction.__init__"), fn("rp2.intra_transaction.IntraTransaction.__init__"), custom("rows", rows), custom("row_classes", row_classes), custom("columns", columns), custom("numbers", numbers), custom("fee_split", fee_split), lemma("C11.rounding"), lemma("C11.fee_model")]
+
+
+def row_classes(pr):
+    from props import C12
+    return C12.row_classes(pr)
+
+
+def replay(pr, vc, model):
+    from props import C12
+    return C12.replay(pr, vc, model)
+
+
+def native(desc):
+    from props import C12
+    return C12.native(desc)
 
 
 def _split_fn(pr):
